@@ -38,7 +38,8 @@ RULE = ("case kinds by index: hostile monoidal diagrams (width 0-6, depth "
         "equations.  Every layout is judged at every height; every case is "
         "rendered to TikZ, ~10 % to matplotlib; bubble-free Ty-typed diagrams "
         "are replayed through diagramize.  Non-trivial = >=2 boxes; distinct "
-        "by class, offsets and box arities.")
+        "by class, offsets and box arities."
+        "  Also: one diagramize signature declaring several functions; draw, restyle one box as a spider, draw again against a styled twin.")
 SIZES = {"quick": (16, 260), "thorough": (16, 5400)}
 TIMEOUT = {"quick": 600, "thorough": 5400}
 COVER = {
